@@ -11,9 +11,22 @@ not cascade).  Failing calls are compared too (outcome and the slots they leave,
 The cluster number stored by create_dir comes from the allocator (layer B) and is read off the implementation's slot;
 whether a directory being removed is empty is a fact of ANOTHER directory and is taken from the implementation's outcome.
 
+Renames are aimed (rule of the generator): at a fresh random name; at ANOTHER SPELLING of the source's own name (other case,
+also through the library's full case folding, e.g. "straße" -> "STRASSE"); at the source's OWN ALIAS (the short name is read
+off the implementation's region of a previous pass over the same history - the executor is deterministic - and the pass is
+repeated until the aliases are stable, at most 4 times); at the identical spelling.  Root histories start from a root that
+already holds three short-only entries planted before mount (no long-name slots: "NOLFN.TXT"; "lowcase.txt" stored as
+LOWCASE.TXT with the NT lower-case flags; "CAF\x82.TXT" with a non-ASCII OEM byte), so that the short-name side of
+DirEntry::has_exact_name is exercised.  After 46d26a5 (D22) a rename whose destination resolves to the source entry itself
+is a no-op only for the identical spelling; otherwise the entry is rewritten with the new long name and the same raw short
+name - model and implementation must agree byte for byte on which of the two happens and on the resulting slots.
+
 Directly on the implementation's regions (independent of the model) the extracted decoder Spec/Abs.dir_scan is evaluated:
 while the region had no issue before an op that succeeded, it has none after, and the number of decoded entries moves by
-+1 (new entry) / 0 (already exists, rename) / -1 (remove)."""
++1 (new entry) / 0 (already exists, rename) / -1 (remove); after a successful rename the region holds an entry stored under
+exactly the destination spelling (long name = UTF-16 of the name, or - without long name - rendered short name = the
+bytes of the name), whatever the destination resolved to before."""
+import re
 import vlib, namelib, fatimg
 from vlib import hexs
 
@@ -34,22 +47,45 @@ BAD = ["", "bad:name", "que?", "a*b", "x" * 256, "é" * 128, "tab\tname", "\U000
 NCL = 8     # clusters of the sub-directory chain that are dumped (it owns clusters 2, 3, ..: nothing else allocates)
 
 
-def gen_ops(rng, nops, prefix, allow_dirs):
-    """-> list of (kind, args...) ; keeps a light shadow of created names only to aim removes/renames at existing entries"""
-    live = []
+# short-only entries planted into the root before mount: (11 raw name bytes, NT flags byte, the names that resolve to it)
+PLANTED = [(b"NOLFN   TXT", 0x00, ["NOLFN.TXT", "nolfn.txt", "NoLfn.Txt"]),
+           (b"LOWCASE TXT", 0x18, ["lowcase.txt", "LOWCASE.TXT", "LowCase.txt"]),
+           (b"CAF\x82    TXT", 0x00, ["caf\ufffd.txt", "CAF\ufffd.TXT"])]
+
+
+def planted_slots():
+    out = b""
+    for raw, nt, _ in PLANTED:
+        out += raw + bytes([0x20, nt, 0, 0x00, 0x60, 0x21, 0x58, 0x21, 0x58, 0, 0, 0x00, 0x60, 0x21, 0x58, 0, 0, 0, 0, 0, 0])
+    assert len(out) == 32 * len(PLANTED)
+    return out
+
+
+FITS83 = re.compile(r"[A-Za-z0-9_~#&-]{1,8}(\.[A-Za-z0-9_~#&-]{1,3})?")
+
+
+def case_variant(rng, t):
+    return [t.upper(), t.lower(), t.swapcase(), t.title()][rng.below(4)]
+
+
+def gen_ops(rng, nops, prefix, allow_dirs, planted):
+    """-> list of (kind, args...) ; keeps a light shadow of created names only to aim removes/renames at existing entries.
+    ("rename_alias", src path, src name, lower?) is a rename onto the source's own alias, resolved by resolve_ops."""
+    live = [p[2][0] for p in PLANTED] if planted else []
+    extra = [n for p in PLANTED for n in p[2]] if planted else []
     ops = []
     for _ in range(nops):
         r = rng.below(100)
-        nm = rng.choice(NAMES) if rng.chance(92, 100) else rng.choice(BAD)
+        nm = rng.choice(NAMES + extra) if rng.chance(92, 100) else rng.choice(BAD)
         if prefix and nm == "":
             nm = "bad:name"        # "d/" is the path of the directory itself (split_path trims '/'): not a name of this layer
         if r < 8:
             ops.append(("clock", 1980 + rng.below(128), 1 + rng.below(12), 1 + rng.below(28), rng.below(24), rng.below(60), rng.below(60), rng.below(1000)))
-        elif r < 50 or not live:
+        elif r < 46 or not live:
             ops.append(("create_file", prefix + nm)); live.append(nm)
-        elif r < 60 and allow_dirs:
+        elif r < 55 and allow_dirs:
             ops.append(("create_dir", prefix + nm)); live.append(nm)
-        elif r < 82:
+        elif r < 72:
             t = rng.choice(live) if rng.chance(85, 100) else nm
             if rng.chance(30, 100):
                 t = t.upper() if rng.chance(1, 2) else t.lower()
@@ -58,14 +94,77 @@ def gen_ops(rng, nops, prefix, allow_dirs):
                 live.remove(t)
         else:
             s = rng.choice(live) if rng.chance(85, 100) else nm
-            ops.append(("rename", prefix + s, prefix + nm))
-            if s in live and rng.chance(1, 2):
-                live.remove(s); live.append(nm)
+            how = rng.below(100)
+            if how < 45:                                   # a random name (fresh, or another entry's, or by chance the source's own)
+                ops.append(("rename", prefix + s, prefix + nm))
+                if s in live and rng.chance(1, 2):
+                    live.remove(s); live.append(nm)
+            elif how < 70:                                 # another spelling of the source's own name
+                v = case_variant(rng, s)
+                ops.append(("rename", prefix + s, prefix + v))
+                if s in live:
+                    live.remove(s); live.append(v)
+            elif how < 92:                                 # the source's own alias (as stored, or lower-cased)
+                low = rng.chance(1, 3)
+                ops.append(("rename_alias", prefix + s, s, low))
+                if s in live and FITS83.fullmatch(s):      # the alias of a name that fits 8.3 is its upper-case form
+                    live.remove(s); live.append(s.lower() if low else s.upper())
+            else:                                          # the identical spelling
+                ops.append(("rename", prefix + s, prefix + s))
     return ops
 
 
-def build_script(conf, ops, region_dump, prelude):
-    lines = ["dev %d 0" % conf[1], "wlog 0", conf[2], "clock 2024 2 29 13 37 59 990", "mount 1 0 lossy"] + prelude + [region_dump]
+def alias_of(region_hex, name):
+    """rendered short name ("NAME.EXT") of the first entry of a dumped directory region that `name` resolves to - by python's
+    approximation of the library's case-insensitive match, used only to AIM a rename - or None"""
+    b = bytes.fromhex(region_hex)
+    parts = {}
+    want = name.upper()
+    for k in range(0, len(b) - 31, 32):
+        s = b[k:k + 32]
+        if s[0] == 0:
+            break
+        if s[0] == 0xe5:
+            parts = {}
+            continue
+        if s[11] & 0x3f == 0x0f:
+            parts[s[0] & 0x1f] = s[1:11] + s[14:26] + s[28:32]
+            continue
+        units = b"".join(parts[i] for i in sorted(parts))
+        parts = {}
+        if s[11] & 0x08:
+            continue
+        lfn = units.decode("utf-16-le", "replace").split("\0")[0] if units else None
+        base = s[0:8].rstrip(b" ")
+        ext = s[8:11].rstrip(b" ")
+        if base[:1] == b"\x05":
+            base = b"\xe5" + base[1:]
+        short = "".join(chr(c) if c < 128 else "\ufffd" for c in base + (b"." + ext if ext else b""))
+        if (lfn is not None and lfn.upper() == want) or short.upper() == want:
+            return short
+    return None
+
+
+def resolve_ops(ops, prefix, aliases):
+    """the ops that are run: every rename_alias becomes a rename onto aliases[op index] (unknown: a case variant of the name)"""
+    out = []
+    for oi, op in enumerate(ops):
+        if op[0] == "rename_alias":
+            a = aliases.get(oi)
+            if a is None:
+                a = op[2].swapcase()
+            elif op[3]:
+                a = a.lower()
+            out.append(("rename", op[1], prefix + a))
+        else:
+            out.append(op)
+    return out
+
+
+def build_script(conf, ops, region_dump, prelude, pokes):
+    """-> lines, marks (index of every op line and of its dump line), index of the first dump"""
+    lines = ["dev %d 0" % conf[1], "wlog 0", conf[2]] + pokes + ["clock 2024 2 29 13 37 59 990", "mount 1 0 lossy"] + prelude + [region_dump]
+    first_dump = len(lines) - 1
     marks = []            # index of the op line and of its dump line
     h = 10
     for op in ops:
@@ -85,7 +184,7 @@ def build_script(conf, ops, region_dump, prelude):
             lines.append("rename 0 %s 0 %s" % (hexs(op[1]), hexs(op[2]))); i = len(lines) - 1
         lines.append(region_dump)
         marks.append((i, len(lines) - 1))
-    return lines, marks
+    return lines, marks, first_dump
 
 
 def changed_cluster(before, after):
@@ -99,6 +198,55 @@ def changed_cluster(before, after):
     return c
 
 
+def render_short(raw):
+    """ShortName::new(raw).as_bytes()"""
+    base = raw[0:8].rstrip(b" ")
+    ext = raw[8:11].rstrip(b" ")
+    out = base + (b"." + ext if ext else b"")
+    if out[:1] == b"\x05":
+        out = b"\xe5" + out[1:]
+    return out
+
+
+def stored_exactly(scan_line, name):
+    """does the decoded directory (a `scan` output line of Spec/Abs.dir_scan) hold an entry stored under exactly this spelling:
+    long name = UTF-16 of the name, or - no long name - rendered short name = the bytes of the name"""
+    ents = scan_line.split(": ", 1)[1] if ": " in scan_line else ""
+    want16 = name.encode("utf-16-be").hex()
+    for ent in ents.split(";"):
+        if "," not in ent:
+            continue
+        sfn, lfn = ent.strip().split(",")
+        if lfn != "-":
+            if lfn == want16:
+                return True
+        elif render_short(bytes.fromhex(sfn)) == name.encode():
+            return True
+    return False
+
+
+def walk(job, res, visit):
+    """the region before and after every compared op of one history: visit(op index, op, before region, after region, impl result,
+    model directory kind).  The model is re-synchronised on the implementation's region after every op."""
+    ci, sub, prefix, ops, lines, marks, first_dump, cslots = job
+    cur = res[first_dump].payload.split()[0] if res[first_dump].kind == "ok" else None
+    cur_len = cslots * 64 if sub else None          # hex length of the allocated part of the chain
+    for oi, op in enumerate(ops):
+        li, di = marks[oi]
+        if op[0] == "clock":
+            visit(oi, op, None, None, None, None)
+            continue
+        if cur is None or res[li].kind in ("skipped", "bad", "hang") or res[di].kind != "ok":
+            break
+        after = res[di].payload.split()[0]
+        before_region = cur[:cur_len] if sub else cur
+        visit(oi, op, before_region, after, res[li], ("chain:%d:1000" % cslots) if sub else "root")
+        cur = after
+        if sub and after[cur_len:].strip("0") != "":
+            used = len(after.rstrip("0"))               # the directory grew: whole clusters up to the last written byte
+            cur_len = -(-used // (cslots * 64)) * (cslots * 64)
+
+
 def run_stream(rep, tier, seed):
     rng = vlib.Rng(seed * 7919 + 17)
     nscripts = 6 if tier == "quick" else 90
@@ -106,7 +254,7 @@ def run_stream(rep, tier, seed):
     # geometry of every configuration (one probe script each)
     probe = vlib.run_scripts([["dev %d 0" % c[1], "wlog 0", c[2], "dump 0 64"] for c in CONFS])
     geoms = [fatimg.Geom(bytes.fromhex(p[3].payload.split()[0])) for p in probe]
-    jobs = []
+    gens = []
     for i in range(nscripts):
         ci = i % len(CONFS)
         g = geoms[ci]
@@ -114,70 +262,101 @@ def run_stream(rep, tier, seed):
         if sub:
             prelude = ["create_dir 0 %s 1" % hexs("d"), "drop_dir 1"]
             dump = "dump %d %d" % (g.cluster_off(2), NCL * g.cluster_size)
-            ops = gen_ops(rng, nops, "d/", False)
+            ops = gen_ops(rng, nops, "d/", False, False)
+            pokes = []
         else:
             prelude = []
             dump = "dump %d %d" % (g.root_off, g.root_entries * 32)
-            ops = gen_ops(rng, nops, "", True)
-        lines, marks = build_script(CONFS[ci], ops, dump, prelude)
-        jobs.append((ci, sub, ops, lines, marks))
-    results = vlib.run_scripts([j[3] for j in jobs])
+            ops = gen_ops(rng, nops, "", True, True)
+            pokes = ["poke %d %s" % (g.root_off, planted_slots().hex())]      # short-only entries, before mount
+        gens.append((ci, sub, "d/" if sub else "", ops, dump, prelude, pokes))
+    # the histories are run until the aliases the rename_alias ops aim at are those of the run itself
+    aliases = [dict() for _ in gens]
+    passes = 0
+    while True:
+        jobs = []
+        for gi, (ci, sub, prefix, ops, dump, prelude, pokes) in enumerate(gens):
+            rops = resolve_ops(ops, prefix, aliases[gi])
+            lines, marks, first_dump = build_script(CONFS[ci], rops, dump, prelude, pokes)
+            jobs.append((ci, sub, prefix, rops, lines, marks, first_dump, geoms[ci].cluster_size // 32))
+        results = vlib.run_scripts([j[4] for j in jobs])
+        passes += 1
+        found = [dict() for _ in gens]
+        for gi, job in enumerate(jobs):
+            gops = gens[gi][3]
+
+            def see(oi, op, before, after, ir, kind, gi=gi, gops=gops):
+                if gops[oi][0] == "rename_alias":
+                    a = alias_of(before, gops[oi][2])
+                    if a is not None:
+                        found[gi][oi] = a
+            walk(job, results[gi], see)
+        if found == aliases or passes >= 4:
+            break
+        aliases = found
+    n_alias_ops = sum(1 for g in gens for op in g[3] if op[0] == "rename_alias")
+    n_alias_hit = sum(len(a) for a in aliases)
     _, table = namelib.upper_table("default")
     mlines = ["upper " + table]
     plan = []              # per model line: (job index, op index, before, after, impl result)
     dist = {}
-    for ji, (ci, sub, ops, lines, marks) in enumerate(jobs):
-        res = results[ji]
-        g = geoms[ci]
-        cslots = g.cluster_size // 32
-        first_dump = 5 + (2 if sub else 0)
-        cur = res[first_dump].payload.split()[0] if res[first_dump].kind == "ok" else None
-        cur_len = cslots * 64 if sub else None          # hex length of the allocated part of the chain
-        clock = (2024, 2, 29, 13, 37, 59, 990)
-        for oi, op in enumerate(ops):
-            li, di = marks[oi]
+    for ji, job in enumerate(jobs):
+        sub = job[1]
+        strip = (lambda p: p[2:]) if sub else (lambda p: p)
+        state = {"clock": (2024, 2, 29, 13, 37, 59, 990)}
+
+        def plan_op(oi, op, before_region, after, ir, kind, ji=ji, strip=strip, state=state):
             if op[0] == "clock":
-                clock = op[1:]
-                continue
-            if cur is None or res[li].kind in ("skipped", "bad", "hang") or res[di].kind != "ok":
-                break
-            after = res[di].payload.split()[0]
-            before_region = cur[:cur_len] if sub else cur
-            kind = ("chain:%d:1000" % cslots) if sub else "root"
-            strip = (lambda p: p[2:]) if sub else (lambda p: p)
+                state["clock"] = op[1:]
+                return
             if op[0] in ("create_file", "create_dir"):
                 isdir = op[0] == "create_dir"
                 cl = "-"
                 if isdir:
                     c = changed_cluster(before_region, after)
                     cl = str(c if c is not None else 2)
-                ml = "create %s 0 %s %s %d %s %d %d %d %d %d %d %d %d" % ((kind, before_region, hexs(strip(op[1])), 16 if isdir else 0, cl) + tuple(clock) + (1 if isdir else 0,))
+                ml = "create %s 0 %s %s %d %s %d %d %d %d %d %d %d %d" % ((kind, before_region, hexs(strip(op[1])), 16 if isdir else 0, cl) + tuple(state["clock"]) + (1 if isdir else 0,))
             elif op[0] == "remove":
                 # whether the removed directory has children is a fact of another directory: taken from the implementation
-                ne = 1 if (res[li].kind == "err" and res[li].payload.startswith("DirectoryIsNotEmpty")) else 0
+                ne = 1 if (ir.kind == "err" and ir.payload.startswith("DirectoryIsNotEmpty")) else 0
                 ml = "remove %s %s %d" % (before_region, hexs(strip(op[1])), ne)
             else:
                 ml = "rename %s %s %s %s" % (kind, before_region, hexs(strip(op[1])), hexs(strip(op[2])))
-            mlines.append(ml); plan.append((ji, oi, before_region, after, res[li], "scan"))
+            mlines.append(ml); plan.append((ji, oi, before_region, after, ir, "scan"))
             mlines.append("scan 0 " + before_region); plan.append(None)
             mlines.append("scan 0 " + after); plan.append(None)
             dist[op[0]] = dist.get(op[0], 0) + 1
-            cur = after
-            if sub and after[cur_len:].strip("0") != "":
-                used = len(after.rstrip("0"))               # the directory grew: whole clusters up to the last written byte
-                cur_len = -(-used // (cslots * 64)) * (cslots * 64)
+        walk(job, results[ji], plan_op)
     out = vlib.model_run("cdir", "\n".join(mlines) + "\n")
     out = out[1:]
     nviol = 0
+    ndirect = 0
     kinds = {}
+    paths = {}
     k = 0
     while k < len(plan):
         ji, oi, before, after, ir, _ = plan[k]
         mo, sb, sa = out[k].split(), out[k + 1], out[k + 2]
         k += 3
-        ci, sub, ops, lines, marks = jobs[ji]
+        ci, sub, prefix, ops, lines, marks, _, _ = jobs[ji]
         op = ops[oi]
         rep.count()
+        # ---- direct evaluation of the slot clauses on the implementation's regions (independent of the model)
+        nb, _, ib = [int(x.rstrip(":")) for x in sb.split()[:3]]
+        na, _, ia = [int(x.rstrip(":")) for x in sa.split()[:3]]
+        if ib == 0 and ir.kind == "ok":
+            exp = {"create_file": (0, 1), "create_dir": (0, 1), "remove": (-1,), "rename": (0,)}[op[0]]
+            if ia != 0 or (na - nb) not in exp:
+                ndirect += 1
+                rep.violation("directory region of the implementation after a successful %s %r: %d decoder issues, entries %d -> %d"
+                              % (op[0], op[1:], ia, nb, na), {"script": lines[:marks[oi][1] + 1]})
+            dst = op[2][len(prefix):] if op[0] == "rename" else None
+            if dst is not None and dst not in (".", "..") and not stored_exactly(sa, dst):
+                ndirect += 1
+                if ndirect <= 3:
+                    rep.violation("rename %r -> %r returned Ok but the directory holds no entry stored under the spelling %r "
+                                  "(a rename onto another spelling of the entry's own name, or onto its alias, must store the new spelling: D22)"
+                                  % (op[1], op[2], dst), {"script": lines[:marks[oi][1] + 1]})
         # ---- model vs implementation: outcome and bytes
         mtag = mo[0]
         if mtag == "err":
@@ -197,15 +376,12 @@ def run_stream(rep, tier, seed):
                               {"theorem_or_correspondence": "Model/DirSlots.v (C01_dir_refines_map, C03_write_entry_refines) vs src/dir.rs",
                                "script": lines[:marks[oi][1] + 1]}, nofail=True)
             continue
-        rep.distinct(("cdir", op[0], mtag, len(before), before[:64], op[1]))
-        # ---- direct evaluation of the slot clauses on the implementation's regions
-        nb, _, ib = [int(x.rstrip(":")) for x in sb.split()[:3]]
-        na, _, ia = [int(x.rstrip(":")) for x in sa.split()[:3]]
-        if ib == 0 and ir.kind == "ok":
-            exp = {"create_file": (0, 1), "create_dir": (0, 1), "remove": (-1,), "rename": (0,)}[op[0]]
-            if ia != 0 or (na - nb) not in exp:
-                rep.violation("directory region of the implementation after a successful %s %r: %d decoder issues, entries %d -> %d"
-                              % (op[0], op[1:], ia, nb, na), {"script": lines[:marks[oi][1] + 1]})
+        if op[0] == "rename" and mo[0] == "ok" and len(mo) == 3:
+            pk = mo[1] + (" (aimed at the alias)" if gens[ji][3][oi][0] == "rename_alias" and oi in aliases[ji] else "")
+            paths[pk] = paths.get(pk, 0) + 1
+        rep.distinct(("cdir", op[0], mtag, len(before), before[:64], op[1]) + ((op[2],) if op[0] == "rename" else ()))
     rep.cov["cdir_correspondence"] = {"ops_compared": len(plan) // 3, "disagreements": nviol, "op_kinds": dist, "model_outcomes": kinds,
+                                      "successful_renames_by_destination": paths,
+                                      "renames_aimed_at_own_alias": {"generated": n_alias_ops, "alias_found": n_alias_hit, "passes": passes},
                                       "histories": nscripts, "configs": [c[0] for c in CONFS] + ["sub-directory (chain, 16 slots/cluster)"]}
     return nviol
